@@ -330,6 +330,7 @@ var (
 	xMtypeBytes           = []byte("X-Mtype")
 	errBadHTTPMsg         = errors.New("bad HTTP message")
 	errUnsupportHTTPCode  = errors.New("unsupport HTTP status code")
+	errExceedReadLimit    = errors.New("size of HTTP message exceeds the read limit")
 )
 
 func (h *httproto) unpack(m erpc.Message, bb *utils.ByteBuffer) (size int, msg []byte, err error) {
@@ -361,8 +362,12 @@ func (h *httproto) unpack(m erpc.Message, bb *utils.ByteBuffer) (size int, msg [
 		}
 		if bytes.Equal(contentLengthBytes, a[0]) {
 			bodySize, err = strconv.Atoi(goutil.BytesToString(a[1]))
-			if err != nil {
+			if err != nil || bodySize < 0 {
 				return 0, nil, errBadHTTPMsg
+			}
+			// refuse an announced body above the read limit before buffering it
+			if uint64(bodySize)+uint64(size) > uint64(erpc.GetReadLimit()) {
+				return 0, nil, errExceedReadLimit
 			}
 			size += bodySize
 			continue
@@ -419,6 +424,10 @@ func (h *httproto) readLine(bb *utils.ByteBuffer) error {
 		_, err = io.ReadFull(h.rw, oneByte)
 		if err != nil {
 			return err
+		}
+		if uint64(bb.Len()) > uint64(erpc.GetReadLimit()) {
+			// a line longer than a whole message may be
+			return errExceedReadLimit
 		}
 		if oneByte[0] == '\n' {
 			n := bb.Len()
